@@ -16,9 +16,9 @@ TECHNIQUE = ('differential + metamorphic runtime monitors on generated acyclic r
 RULE = ('cases = acyclic rule sets over <= 8 names (acyclic including the undefined->default edge): random expression '
         'bodies mixing role checks, recording checks and rule: references; dedicated shapes: alias chains to depth 8, '
         'diamonds, references under not/and/or, undefined references; with and without a default rule (option default name, constructor name, '
-        'constructor check object); every rule enforced under all 16 subsets of 4 roles; stratum `redefinition`: some rules are redefined under the living enforcer (merge, store update, item assignment, overwrite) and everything is re-decided against the new definitions. Stratum `overlap`: two requests enforce two policies of one rule set at the same time (second one runs at sampled line boundaries of the first, deterministic scheduler); decisions and the policy name told to nested checks must be those of each request alone; besides the pre-empt/run/finish schedule, both requests are held in flight at once (first one pre-empted, second one pre-empted before it ends, first one finishes, second one finishes) over a grid of boundary pairs; part of the overlap cases are rule sets in which one name (defined, an alias or undefined) is referenced at least twice under one and/or (diamonds, `rule:x and (... or rule:x)`, flat repeats; both requests on the same policy or on two policies) with role sets that make that name decide differently for the two requests. Stratum `late-default`: the rule set of a living enforcer lacks the default rule whose name is configured (option or constructor); after a first round of decisions the default rule is defined later (merge without overwrite, store update, item assignment, a default registered in code for a file-backed enforcer before or after its first load, a file dropped into a policy directory, the policy file rewritten) and every rule incl. undefined references (plain, under not, nested) and an unknown policy name is re-decided against the reference with the default rule now usable. Stratum `checker-tool`: the same rule sets written to a file and decided by the console checker (its own stand-in enforcer), incl. an unknown policy name. Stratum `overlap-reinstall` (part of the overlap runs): while one request decides a policy that goes through one or more references, the SAME rules (identical texts, same default rule) are installed again on the living enforcer - Enforcer.set_rules with a freshly parsed Rules object, with and without overwrite, a forced reload of the policy file, or the policy file re-saved with identical content and re-read by a second request; no definition changes, so the decision must be that of the reference evaluator at every pre-emption point of either operation (either one pre-empted with the other run to its end in between, and both in flight). Stratum `redefinition` also keeps the Rules object of the living enforcer, installs another rule set, re-installs the kept object (with and without overwrite) and re-decides everything against the kept set. Stratum `check-object`: the same rule sets, with an additional recording check kind whose DECISION depends on the policy name it is told, are enforced by passing the parsed check tree of each policy to enforce() instead of its name: decisions must be those of the reference evaluator (name-dependent leaves evaluated with what a check object enforced directly is told - found out with a bare probe, not demanded), no nested check may be told the name of an alias, and the tree with a reference and the tree with that reference inlined must decide alike AND tell the nested checks the same. Non-trivial = the '
+        'constructor check object); every rule enforced under all 16 subsets of 4 roles; stratum `redefinition`: some rules are redefined under the living enforcer (merge, store update, item assignment, overwrite) and everything is re-decided against the new definitions. Stratum `overlap`: two requests enforce two policies of one rule set at the same time (second one runs at sampled line boundaries of the first, deterministic scheduler); decisions and the policy name told to nested checks must be those of each request alone; besides the pre-empt/run/finish schedule, both requests are held in flight at once (first one pre-empted, second one pre-empted before it ends, first one finishes, second one finishes) over a grid of boundary pairs; part of the overlap cases are rule sets in which one name (defined, an alias or undefined) is referenced at least twice under one and/or (diamonds, `rule:x and (... or rule:x)`, flat repeats; both requests on the same policy or on two policies) with role sets that make that name decide differently for the two requests. Stratum `late-default`: the rule set of a living enforcer lacks the default rule whose name is configured (option or constructor); after a first round of decisions the default rule is defined later (merge without overwrite, store update, item assignment, a default registered in code for a file-backed enforcer before or after its first load, a file dropped into a policy directory, the policy file rewritten) and every rule incl. undefined references (plain, under not, nested) and an unknown policy name is re-decided against the reference with the default rule now usable. Stratum `checker-tool`: the same rule sets written to a file and decided by the console checker (its own stand-in enforcer), incl. an unknown policy name. Stratum `overlap-reinstall` (part of the overlap runs): while one request decides a policy that goes through one or more references, the SAME rules (identical texts, same default rule) are installed again on the living enforcer - Enforcer.set_rules with a freshly parsed Rules object, with and without overwrite, a forced reload of the policy file, or the policy file re-saved with identical content and re-read by a second request; no definition changes, so the decision must be that of the reference evaluator at every pre-emption point of either operation (either one pre-empted with the other run to its end in between, and both in flight). Stratum `redefinition` also keeps the Rules object of the living enforcer, installs another rule set, re-installs the kept object (with and without overwrite) and re-decides everything against the kept set. Stratum `check-object`: the same rule sets, with an additional recording check kind whose DECISION depends on the policy name it is told, are enforced by passing the parsed check tree of each policy to enforce() instead of its name: decisions must be those of the reference evaluator (name-dependent leaves evaluated with what a check object enforced directly is told - found out with a bare probe, not demanded), no nested check may be told the name of an alias, and the tree with a reference and the tree with that reference inlined must decide alike AND tell the nested checks the same. Stratum `check-class-hierarchy`: custom check classes created freshly per case in hierarchies (3-argument base with 4-argument derived class and the reverse, inherited __call__, three levels, several registered kinds sharing one base; fourth parameter named current_rule or otherwise), some registered as kinds, the others only used as check objects inside the rules, each behind references (plain, under not, depth 2, beside a role check) and enforced in random order over one or two enforcers: decisions are those of the reference evaluator, every 4-argument class is told the enforced policy name and every 3-argument class is called with three arguments, whatever class was evaluated before. Stratum `registered-never-loaded`: enforcers that do not load from configuration (use_conf=False; rules given by set_rules - Rules object, plain dict, merged in two halves - or to the constructor) with defaults registered in code before or after (new names, the undefined names of the set, a referenced rule or the default rule moved out of the set, a name the set defines too): the registered-only names are not in the store, so references to them (plain, under not, depth 2, random bodies) and enforcing them directly decide like an unknown policy - default rule if usable, else deny. Non-trivial = the '
         'rule set contains at least one rule: reference reached from the enforced rule; distinct = distinct rule set.')
-ASSUMPTIONS = ['role:/@/! leaves evaluate as C01/C04 state', 'the harness registers private check kinds (pvrec, pvrec3, pvrec4, pvwho) and removes them afterwards']
+ASSUMPTIONS = ['role:/@/! leaves evaluate as C01/C04 state', 'the harness registers private check kinds (pvrec, pvrec3, pvrec4, pvwho; pvh0-pvh5 per hierarchy case) and removes them afterwards']
 LEVEL_TEXT = ('Seeded sampling of acyclic reference graphs with targeted shapes (chains, diamonds, undefined references), '
               'each decided under all role subsets by the real enforcer and compared with reference expansion and with '
               'its own inlined variant; alias transparency is a property of infinitely many graphs, so structured sampling is the level.')
@@ -31,7 +31,10 @@ MIN = {'overlapping_evaluations': 200, 'evaluations': 300, 'reference_decisions'
        'late_default_decisions': 5000, 'late_default_undefined_reference_decisions': 1000, 'late_default_file_backed_cases': 20,
        'kept_store_reinstall_decisions': 3000, 'check_object_decisions': 5000, 'check_object_inlined_comparisons': 1000,
        'check_object_current_rule_observations': 2000, 'check_object_name_dependent_calls': 1000,
-       'reinstall_overlap_cases': 12, 'reinstall_overlap_evaluations': 300, 'reinstall_overlap_file_backed_cases': 4}
+       'reinstall_overlap_cases': 12, 'reinstall_overlap_evaluations': 300, 'reinstall_overlap_file_backed_cases': 4,
+       'hierarchy_cases': 80, 'hierarchy_decisions': 2000, 'hierarchy_told_observations': 500, 'hierarchy_three_arg_calls': 500,
+       'hierarchy_unregistered_class_evaluated_after_an_ancestor_of_other_arity': 30,
+       'unloaded_registered_cases': 40, 'unloaded_registered_decisions': 10000, 'unloaded_registered_reference_decisions': 4000}
 ANCHORS = ['oslo_policy._checks:RuleCheck.__call__', 'oslo_policy._checks:_check', 'oslo_policy.policy:Rules.__missing__',
            'oslo_policy.policy:Enforcer.enforce']
 REQUIRED_ANCHORS = ['oslo_policy.policy:Enforcer.enforce']
@@ -1049,6 +1052,308 @@ def check_late_default(ctx, case):
             tree.cleanup()
 
 
+HLOG = []          # [class index, what it was told] per call of a hierarchy check class ('<not told>' for three-argument calls)
+HKINDS = ['pvh%d' % i for i in range(6)]
+NOT_TOLD = '<not told>'
+
+
+def _h3(self, target, creds, enforcer):
+    HLOG.append([type(self).pv_index, NOT_TOLD])
+    return self.match in creds['roles']
+
+
+def _h4a(self, target, creds, enforcer, current_rule=None):
+    HLOG.append([type(self).pv_index, current_rule])
+    return self.match in creds['roles']
+
+
+def _h4b(self, target, creds, enforcer, rule_name=None):
+    HLOG.append([type(self).pv_index, rule_name])
+    return self.match in creds['roles']
+
+
+def _h4c(self, target, creds, enforcer, policy_name):
+    HLOG.append([type(self).pv_index, policy_name])
+    return self.match in creds['roles']
+
+
+H4 = {'current_rule': _h4a, 'rule_name': _h4b, 'policy_name': _h4c}
+
+
+def make_classes(policy, specs):
+    """FRESH classes per case (whatever a library keeps per class must not leak from case to case): spec = parent index
+    (None = the public Check class), arity 3 / 4 / 0 (0 = __call__ inherited), name of the fourth parameter."""
+    classes = []
+    for i, s in enumerate(specs):
+        parent = policy.Check if s['parent'] is None else classes[s['parent']]
+        ns = {'pv_index': i}
+        if s['arity'] == 3:
+            ns['__call__'] = _h3
+        elif s['arity'] == 4:
+            ns['__call__'] = H4[s['param']]
+        classes.append(type('PvHier%d' % i, (parent,), ns))
+    return classes
+
+
+def eff_arity(specs, i):
+    while not specs[i]['arity']:
+        i = specs[i]['parent']
+    return specs[i]['arity']
+
+
+def gen_hierarchy(r, rseed):
+    """Custom check classes in a hierarchy (3-argument base / 4-argument derived and the reverse, inherited __call__, three
+    levels, several kinds sharing one base), some registered as kinds, the others only used as check objects inside the rules;
+    every class sits behind references (plain, under not, at depth 2, next to a role check); the enforce calls in random order."""
+    def C(parent, arity, registered):
+        return dict(parent=parent, arity=arity, param=r.choice(['current_rule', 'current_rule', 'rule_name', 'policy_name']),
+                    registered=bool(registered))
+    form = r.choice(['base3-derived4', 'base3-derived4', 'base4-derived3', 'base4-derived3', 'kinds-sharing-a-base', 'three-levels', 'random'])
+    if form in ('base3-derived4', 'base4-derived3'):
+        a, b = (3, 4) if form == 'base3-derived4' else (4, 3)
+        classes = [C(None, a, r.random() < 0.5), C(0, b, r.random() < 0.25)]
+        if r.random() < 0.5:
+            classes.append(C(r.choice([0, 1]), r.choice([3, 4, 0]), r.random() < 0.3))
+    elif form == 'kinds-sharing-a-base':
+        classes = [C(None, r.choice([3, 4]), r.random() < 0.3), C(0, r.choice([3, 4]), True), C(0, r.choice([3, 4, 0]), True)]
+        if r.random() < 0.6:
+            classes.append(C(r.choice([1, 2]), r.choice([3, 4]), False))
+    elif form == 'three-levels':
+        a = r.choice([3, 4])
+        classes = [C(None, a, r.random() < 0.4), C(0, r.choice([0, 7 - a]), r.random() < 0.2), C(1, r.choice([3, 4]), r.random() < 0.2)]
+    else:
+        classes = [C(None, r.choice([3, 4]), r.random() < 0.5)]
+        for i in range(1, r.randint(2, 5)):
+            classes.append(C(r.choice([None] + list(range(i))), r.choice([3, 4, 0]), r.random() < 0.35))
+        for c in classes:
+            if c['parent'] is None and not c['arity']:
+                c['arity'] = 3
+    rules, objects = {}, {}
+
+    def role():
+        return ('text', 'role:' + r.choice(ROLES))
+    n = len(classes)
+    for i, c in enumerate(classes):
+        m = r.choice(ROLES)
+        rules['c%d' % i] = ('text', 'pvh%d:%s' % (i, m))
+        if not c['registered'] or r.random() < 0.5:
+            objects['c%d' % i] = [i, m]                 # a check object put into the store (the only way for an unregistered class)
+        ref = ('ref', 'c%d' % i)
+        shape = r.choice(['ref', 'not', 'and', 'or', 'alias', 'alias-not'])
+        if shape.startswith('alias'):
+            rules['a%d' % i] = ref if shape == 'alias' else ('not', ref)
+            rules['p%d' % i] = r.choice([('ref', 'a%d' % i), ('not', ('ref', 'a%d' % i)), ('or', [role(), ('ref', 'a%d' % i)])])
+        else:
+            rules['p%d' % i] = {'ref': ref, 'not': ('not', ref), 'and': ('and', [role(), ref]), 'or': ('or', [ref, role()])}[shape]
+        if c['registered'] and r.random() < 0.5:
+            rules['q%d' % i] = (r.choice(['and', 'or']), [('text', 'pvh%d:%s' % (i, r.choice(ROLES))), ('ref', 'c%d' % r.randrange(n))])
+    for k in range(r.randint(1, 2)):
+        i, j = r.randrange(n), r.randrange(n)
+        rules['m%d' % k] = r.choice([(r.choice(['and', 'or']), [('ref', 'c%d' % i), ('ref', 'c%d' % j)]),
+                                     ('or', [('not', ('ref', 'p%d' % i)), ('ref', 'c%d' % j)]),
+                                     ('and', [('ref', 'p%d' % i), ('not', ('ref', 'p%d' % j))])])
+    two = r.random() < 0.4                              # a second enforcer over the same rules takes part of the calls
+    order = [[nm, roles, r.randrange(2) if two else 0] for nm in sorted(rules) for roles in r.sample(SUBSETS, 3)]
+    r.shuffle(order)
+    return dict(hierarchy=True, form=form, classes=classes, rules=rules, objects=objects, order=order, default=None,
+                default_mode='none', shape='check-class-hierarchy', rseed=rseed)
+
+
+def check_hierarchy(ctx, case):
+    """Every check class of the hierarchy, registered or not, derived or base, first or later in the process: a class whose
+    __call__ takes a fourth argument is told the name of the policy being enforced, one that takes three is called with three;
+    decisions are those of the reference evaluator."""
+    from oslo_policy import policy
+    specs = case['classes']
+    rules = {k: fromjson(v) for k, v in case['rules'].items()}
+    objects = case['objects']
+    texts = {k: text_of(v) for k, v in rules.items()}
+    classes = make_classes(policy, specs)
+    shown = {k: ('<check object of class %d> %s' % (objects[k][0], texts[k]) if k in objects else texts[k]) for k in texts}
+    described = ['%d: %s, %s%s' % (i, 'derived from %d' % s['parent'] if s['parent'] is not None else 'base',
+                                   {3: '3 arguments', 4: '4 arguments (%s)' % s['param'], 0: '__call__ inherited'}[s['arity']],
+                                   ', registered as pvh%d' % i if s['registered'] else ', not registered') for i, s in enumerate(specs)]
+    ctx.case(['hierarchy', described, shown, case['order']], True, 'check-class-hierarchy')
+    ctx.count('hierarchy_cases')
+    ctx.observe('hierarchy_forms', case['form'])
+    try:
+        for i, s in enumerate(specs):
+            if s['registered']:
+                env.register_kind(HKINDS[i], classes[i])
+        enfs = []
+        for e in range(1 + max(o[2] for o in case['order'])):
+            enf = policy.Enforcer(env.fresh_conf(), use_conf=False)
+            store = policy.Rules.from_dict({k: v for k, v in texts.items() if k not in objects})
+            for k, (i, m) in objects.items():
+                store[k] = classes[i](HKINDS[i], m)
+            enf.set_rules(store)
+            enfs.append(enf)
+        first = []
+        history = []
+        for nm, roles, e in case['order']:
+            want = ev(rules[nm], rules, None, roles, {})
+            del HLOG[:]
+            try:
+                got = bool(enfs[e].enforce(nm, {}, {'roles': list(roles)}))
+            except Exception as ex:
+                got = 'EXC:%s: %s' % (type(ex).__name__, str(ex)[:120])
+            ctx.count('hierarchy_decisions')
+            log = [list(x) for x in HLOG]
+            history.append([nm, roles, e])
+            for i, t in log:
+                if i not in first:
+                    first.append(i)
+                if t is not NOT_TOLD:
+                    ctx.count('hierarchy_told_observations')
+                if eff_arity(specs, i) == 3:
+                    ctx.count('hierarchy_three_arg_calls')
+            detail = {'classes': described, 'rules': shown, 'enforced': nm, 'roles': roles, 'enforcer': e,
+                      'calls_before_this_one': history[-8:-1], 'classes_in_order_of_first_evaluation': list(first)}
+            if got != want:
+                ctx.violation('reference-evaluation-raises' if isinstance(got, str) else 'alias-not-transparent', case,
+                              dict(detail, expected=want, observed=got))
+                return
+            wrong = [[i, t] for i, t in log if (t is NOT_TOLD) != (eff_arity(specs, i) == 3) or (t is not NOT_TOLD and t != nm)]
+            if wrong:
+                ctx.violation('nested-check-told-wrong-policy-name', case, dict(detail, class_and_what_it_was_told=wrong[:4]))
+                return
+        # how much of the aimed history this case really had: a class evaluated after an ancestor of the other arity
+        for d in first:
+            a = specs[d]['parent']
+            while a is not None:
+                if a in first and first.index(a) < first.index(d) and eff_arity(specs, a) != eff_arity(specs, d):
+                    ctx.count('hierarchy_class_evaluated_after_an_ancestor_of_other_arity')
+                    if not specs[d]['registered']:
+                        ctx.count('hierarchy_unregistered_class_evaluated_after_an_ancestor_of_other_arity')
+                    break
+                a = specs[a]['parent']
+    finally:
+        for k in HKINDS:
+            env.unregister_kind(k)
+
+
+UNLOADED_ROUTES = ['set_rules', 'set_rules', 'set_rules-explicit', 'set_rules-plain-dict', 'set_rules-merge', 'ctor-rules', 'ctor-rules']
+
+
+def gen_unloaded(r, case):
+    """From a generated rule set: an enforcer that never loads from configuration (use_conf=False; rules handed over with
+    set_rules or to the constructor) plus defaults registered in code, which therefore never reach the rule store: new names,
+    the undefined names the set already refers to, sometimes a rule moved out of the set (or the default rule itself) and a
+    name the set defines as well.  References to the registered-only names: plain, under not, at depth 2, in random bodies."""
+    rules = {k: fromjson(v) for k, v in case['rules'].items()}
+    default = case['default']
+    registered = {}
+    simple = ['role:a', 'role:b', 'role:c', 'role:d', '@', '@', '!', 'pvrec:c']
+    lower = ['rule:' + n for n in sorted(rules) if n != default]
+    for nm in ['reg0', 'reg1']:
+        registered[nm] = gen_body(r, r.randint(0, 1), simple + (lower if r.random() < 0.3 else []))
+    used = {x for a in rules.values() for x in expr.refs(a)}
+    for nm in sorted(used - set(rules)):
+        if r.random() < 0.7:
+            registered[nm] = gen_body(r, 1, simple)         # the undefined names the set refers to are registered in code
+    movable = sorted(n for n in rules if n != default and n in used)
+    if movable and r.random() < 0.4:
+        nm = r.choice(movable)
+        registered[nm] = rules.pop(nm)                      # a referenced rule exists only as a registered default
+    if default and r.random() < 0.2:
+        registered[default] = rules.pop(default)            # ... the default rule itself: not in the store, so not usable
+    names = sorted(rules)
+    if names and r.random() < 0.25:
+        nm = r.choice(names)
+        registered[nm] = gen_body(r, 1, simple)             # registered AND in the store: the store's definition is the current one
+    regs = sorted(n for n in registered if n not in rules)
+    store_lower = ['rule:' + n for n in sorted(rules) if n != default]
+    rules['u0'] = ('ref', r.choice(regs))
+    rules['u1'] = ('not', ('ref', r.choice(regs)))
+    rules['u2'] = r.choice([('ref', 'u0'), ('ref', 'u1'), ('not', ('ref', 'u0')), ('and', [('ref', 'u0'), ('not', ('ref', 'u1'))])])
+    rules['u3'] = gen_body(r, 2, BASE_LEAVES + store_lower + ['rule:' + n for n in regs] * 3 + ['rule:u0', 'rule:u1'])
+    rules['u4'] = (r.choice(['and', 'or']), [('text', 'role:' + r.choice(ROLES)), r.choice([('not', ('ref', r.choice(regs))), ('ref', r.choice(regs))])])
+    rules['u5'] = ('ref', 'u2')
+    return dict(unloaded=True, rules=rules, registered=registered, default=default, default_mode=case['default_mode'],
+                shape=case['shape'], route=r.choice(UNLOADED_ROUTES), when=r.choice(['before', 'after']),
+                register_with=r.choice(['one-by-one', 'list']))
+
+
+def check_unloaded(ctx, case):
+    """The rule store is the only place a definition lives: a name that is registered in code but never loaded into the store
+    (the enforcer does not load from configuration) is undefined, so rule:NAME behaves like enforcing the unknown policy NAME -
+    the default rule if usable, otherwise deny - at any depth and under not; so does enforcing NAME directly."""
+    from oslo_policy import policy
+    rules = {k: fromjson(v) for k, v in case['rules'].items()}
+    registered = {k: fromjson(v) for k, v in case['registered'].items()}
+    default = case['default']
+    texts = {k: text_of(v) for k, v in rules.items()}
+    regtexts = {k: text_of(v) for k, v in registered.items()}
+    route, when = case['route'], case['when']
+    ctx.case(['unloaded', texts, regtexts, route, when, case['default_mode']], True, 'registered-never-loaded')
+    ctx.observe('unloaded_routes', '%s/%s/%s' % (route, when, case['default_mode']))
+    defaults = [policy.RuleDefault(k, regtexts[k]) for k in sorted(regtexts)]
+
+    def register(enf):
+        if case['register_with'] == 'list':
+            enf.register_defaults(defaults)
+        else:
+            for d in defaults:
+                enf.register_default(d)
+    kw = ctor_kw(case)
+    if route == 'ctor-rules':
+        enf = policy.Enforcer(env.fresh_conf(), rules=dict(policy.Rules.from_dict(texts)), use_conf=False, **kw)
+        register(enf)
+    else:
+        enf = policy.Enforcer(env.fresh_conf(), use_conf=False, **kw)
+        if when == 'before':
+            register(enf)
+        if route == 'set_rules':
+            enf.set_rules(policy.Rules.from_dict(texts, enf.default_rule))
+        elif route == 'set_rules-explicit':
+            enf.set_rules(policy.Rules.from_dict(texts, enf.default_rule), use_conf=False)
+        elif route == 'set_rules-plain-dict':
+            enf.set_rules(dict(policy.Rules.from_dict(texts)))
+        else:
+            ks = sorted(texts)
+            enf.set_rules(policy.Rules.from_dict({k: texts[k] for k in ks[::2]}, enf.default_rule))
+            enf.set_rules(policy.Rules.from_dict({k: texts[k] for k in ks[1::2]}), overwrite=False)
+        if when == 'after':
+            register(enf)
+    only = sorted(n for n in registered if n not in rules)
+    if any(n in enf.rules for n in only):
+        # the registered names did reach the store: not the situation this stratum is about
+        ctx.unconstrained('registered-default-in-the-store-of-an-enforcer-that-does-not-load')
+        return
+    ctx.count('unloaded_registered_cases')
+    objdef = {'object_default': case['default_mode'] == 'ctor-object'}
+    detail = {'rules_in_the_store': texts, 'registered_in_code_only': {k: regtexts[k] for k in only},
+              'registered_and_in_the_store': {k: regtexts[k] for k in regtexts if k in rules}, 'default': default,
+              'default_mode': case['default_mode'], 'rules_given_by': route, 'defaults_registered': when + ' the rules were given'}
+    for nm in sorted(rules) + only + ['pv-unknown-policy']:
+        for roles in SUBSETS:
+            stats = dict(objdef)
+            want = ev(rules[nm] if nm in rules else ('ref', nm), rules, default, roles, stats)
+            del SEEN[:]
+            try:
+                got = bool(enf.enforce(nm, {}, {'roles': list(roles)}))
+            except Exception as e:
+                got = 'EXC:' + type(e).__name__
+            ctx.count('unloaded_registered_decisions')
+            if nm in rules and stats.get('undefined'):
+                ctx.count('unloaded_registered_reference_decisions')
+            if got != want:
+                if isinstance(got, str):
+                    key = 'reference-evaluation-raises'
+                elif nm not in rules:
+                    key = 'unknown-policy-not-like-undefined-reference'
+                elif stats.get('undefined'):
+                    key = 'undefined-reference-not-like-unknown-policy'
+                else:
+                    key = 'alias-not-transparent'
+                ctx.violation(key, case, dict(detail, enforced=nm, roles=roles, expected=want, observed=got))
+                return
+            wrong = [c for c in SEEN if c != nm]
+            if wrong:
+                ctx.violation('nested-check-told-wrong-policy-name', case, dict(detail, enforced=nm, roles=roles, current_rule_seen=wrong[:3]))
+                return
+
+
 def run(ctx):
     ctx.reserve(0.8)          # the strata that come last (overlapping operations) keep a fifth of the wall budget
     install_kinds()
@@ -1081,6 +1386,12 @@ def run(ctx):
                 check_object(ctx, gen_named(ctx.sub_rnd('T', ctx.tier, ctx.shard, i), case))
             if i % 4 == 1:
                 check_tool(ctx, case)
+            if i % 4 == 3:
+                # custom check classes in hierarchies (fresh classes per case), enforce calls in random order
+                check_hierarchy(ctx, gen_hierarchy(ctx.sub_rnd('H', ctx.tier, ctx.shard, i), 'H.%s.%d.%d' % (ctx.tier, ctx.shard, i)))
+            if i % 8 == 0:
+                # an enforcer that does not load from configuration + defaults registered in code that never reach the store
+                check_unloaded(ctx, gen_unloaded(ctx.sub_rnd('U', ctx.tier, ctx.shard, i), case))
             if i % LATE_EVERY[ctx.tier] == 2:
                 # the default rule is missing at first and gets defined later on the living enforcer
                 late = gen_late_default(ctx.sub_rnd('L', ctx.tier, ctx.shard, i), case)
@@ -1140,6 +1451,10 @@ def replay(ctx, case):
             return check_late_default(ctx, case)
         if case.get('tool'):
             return check_tool(ctx, case)
+        if case.get('hierarchy'):
+            return check_hierarchy(ctx, case)
+        if case.get('unloaded'):
+            return check_unloaded(ctx, case)
         check_case(ctx, case)
     finally:
         remove_kinds()
